@@ -1137,7 +1137,7 @@ pub fn late_recursion_family(ctx: &Ctx, owner: &str) {
 }
 
 pub fn run(ctx: &Ctx) {
-    ctx.set_rule("proptest-generated macro libraries: 0-8 macros with 0-4 parameters drawn from a pool of names that are prefixes/suffixes/substrings of each other and of body tokens (a, ab, a1, _a, ax1, ad, mo, al1, ...), bodies of complete instructions in the body alphabet with operands abstracted into parameters (byte/word register, 8/16-bit number in any radix, byte/word bracketed memory of all five shapes, data-label name, jump target), uses of earlier macros with literal and passed-through arguments, macro-valued parameters, optional back edges (2-cycles), self recursion, unknown macro names, definitions placed between code items, uses at top level, between labels and inside a procedure, several use-site spellings. Oracle: an independent textual reference expander (whole-identifier simultaneous substitution, recursive, explicit cycle check) produces the hand-expanded program P'; Output.code/.data and the label and procedure maps of P must equal those of P', P is rejected iff P' is rejected or the reference finds a cycle / unknown macro, and the diagnostic must be positioned on the line(s) of the failing outermost use. Deep chains (1..64 quick, ..4096 thorough; acyclic and cyclic) run through the CLI in a child process: result or diagnostic, never a signal. Non-trivial = a parameter name that is a substring of another body token, nesting depth >= 2, a macro-valued parameter, or a cyclic use graph.");
+    ctx.set_rule("proptest-generated macro libraries: 0-8 macros with 0-4 parameters drawn from a pool of names that are prefixes/suffixes/substrings of each other and of body tokens (a, ab, a1, _a, ax1, ad, mo, al1, ...), bodies of complete instructions in the body alphabet with operands abstracted into parameters (byte/word register, 8/16-bit number in any radix, byte/word bracketed memory of all five shapes, data-label name, jump target), uses of earlier macros with literal and passed-through arguments, macro-valued parameters, optional back edges (2-cycles), self recursion, unknown macro names, definitions placed between code items, uses at top level, between labels and inside a procedure, several use-site spellings. Oracle: an independent textual reference expander (whole-identifier simultaneous substitution, recursive, explicit cycle check) produces the hand-expanded program P'; Output.code/.data and the label and procedure maps of P must equal those of P', P is rejected iff P' is rejected or the reference finds a cycle / unknown macro, and the diagnostic must be positioned on the line(s) of the failing outermost use. Deep chains (1..64 quick, ..4096 thorough; acyclic and cyclic) run through the CLI in a child process: result or diagnostic, never a signal. Plus 44 programs whose recursion only appears through a redefinition (direct, through a second macro, with and without a use in between) or after a successful use of a by-name parameter: refused with a diagnostic by a child process in both builds. Non-trivial = a parameter name that is a substring of another body token, nesting depth >= 2, a macro-valued parameter, or a cyclic use graph.");
     ctx.assume("arguments are the kinds the statement lists (identifier, register, number, bracketed memory); the number of arguments equals the number of parameters ('_' convention for none); a space separates a macro-valued parameter from its bracket, as syntax.md requires; macros expanding to data directives are not generated");
     ctx.set_exhaustive(false);
     let n = ctx.tier.pick(3_200u32, 100_000u32);
